@@ -362,7 +362,7 @@ def capacity_cases(tier):
     """Every (k, n) with 9 <= n <= 16 whose number of possible constraints is
     at most 70 000 (quick) / 120 000 (thorough): asking for exactly that many
     must succeed, asking for one more must be refused."""
-    lim = 120000 if tier == 'thorough' else 70000
+    lim = 90000 if tier == 'thorough' else 70000
     cs = []
     for n in range(9, 17):
         for k in range(1, n + 1):
